@@ -143,6 +143,38 @@ def cases(draw):
         head = [sample[k] for k in kinds]
         tails = [[], [None], [1.5], ["x"], [None, None], [{"a": 1}]]
         tuple_values = [{"tup": head + t} for t in tails] + [{"tup": head[:-1]}]
+    mix_values = []
+    if recipe.get("kind") == "Object" and draw(st.integers(0, 5)) == 0 and not any(
+            p["name"] == "mix" or p.get("source") == "mix" for p in recipe.get("props", [])):
+        # an allOf whose members fall into different ANNOTATION categories (explicit type, union, untyped; a
+        # composition whose alternatives all share one annotation counts as that explicit type): the member that
+        # builds the value must be the one the annotation describes
+        counter = [9500]
+
+        def nid():
+            counter[0] += 1
+            return counter[0]
+
+        def member():
+            r = draw(st.integers(0, 7))
+            if r == 0:
+                return {"id": nid(), "kind": draw(st.sampled_from(["OneOf", "AnyOf"])), "kw": {}, "elements": [
+                    {"id": nid(), "kind": "Integer", "kw": {"minimum": 10}}, {"id": nid(), "kind": "Integer", "kw": {"maximum": 5}}]}
+            if r == 1:
+                return {"id": nid(), "kind": "AnyOf", "kw": {}, "elements": [
+                    {"id": nid(), "kind": "Integer", "kw": {}}, {"id": nid(), "kind": "String", "kw": {}}]}
+            if r == 2:
+                return {"id": nid(), "kind": "AllOf", "kw": {}, "elements": [member(), member()]}
+            if r == 3:
+                return {"id": nid(), "kind": "Element", "kw": {"minimum": 0}}
+            if r == 4:
+                return {"id": nid(), "kind": "AnyOf", "kw": {}, "elements": [{"id": nid(), "kind": "Number", "kw": {}}]}
+            return {"id": nid(), "kind": draw(st.sampled_from(["Number", "Integer", "Number", "Element"])), "kw": {}}
+
+        recipe["props"] = list(recipe.get("props", [])) + [{
+            "name": "mix", "source": None, "required": False,
+            "element": {"id": nid(), "kind": "AllOf", "kw": {}, "elements": [member() for _ in range(draw(st.integers(2, 3)))]}}]
+        mix_values = [{"mix": v} for v in (3, 50, 12, 0, 1.5, "s")]
     recipe = sanitize_defaults(recipe)
     # nested defaults may have become invalid for enclosing schemas' defaults: one more pass
     recipe = sanitize_defaults(recipe)
@@ -170,6 +202,9 @@ def cases(draw):
     if tuple_values:
         base = values[0] if values and isinstance(values[0], dict) else {}
         values = values[:3] + [{**base, **tv} for tv in tuple_values]
+    if mix_values:
+        base = values[0] if values and isinstance(values[0], dict) else {}
+        values = values[:3] + [{**{k: v for k, v in base.items() if k != "mix"}, **mv} for mv in mix_values]
     if findings.is_open(PID, "pyname-key-collision"):
         # exclusion by construction: keep the search budget for everything else
         names = cc.renamed_pynames_recipe(recipe) | cc.renamed_pynames_schema(schema)
